@@ -23,6 +23,8 @@ def _fast_unescape(s, _slow=tlc._unescape):
 tlc._unescape = _fast_unescape
 
 ALL_FAULTS = '{"flip", "fliplen", "drop", "dup", "swap", "cut", "cuteof", "trunc"}'
+GLITCHES = '{"dataerr", "temperr", "shortwrite", "eofdata"}'
+RGLITCHES = '{"dataerr", "temperr", "eofdata"}'
 CH_INV = "INVARIANTS TypeOK Prefix Complete Conservation Nonces ErrNoLater NeverPast"
 CH_PROPS = "PROPERTIES ErrDeliversNothing ReadCount PathGuard"
 
@@ -34,16 +36,21 @@ def S(xs):
 # ------------------------------------------------------------------------------------------------
 # instances
 
+ALL_OTHERS = '{"rev", "peer"}'
+CH_GLITCHES = '{"dataerr", "temperr", "shortwrite"}'
+
+
 def chan_exhaustive(ctx):
     """Exhaustive-only instances of the Noise channel (not printed): (name, constants, cfg substitutions)."""
     t = ctx.tier == "thorough"
     n = 10 if t else 9
-    base = {"Tag": 2, "MaxPT": 3, "Bufs": S(range(1, 7)), "Shorts": S([0, 1, 2]), "Faults": ALL_FAULTS}
+    base = {"Tag": 2, "MaxPT": 3, "Bufs": S(range(1, 7)), "Shorts": S([0, 1, 2]), "Faults": ALL_FAULTS,
+            "Others": ALL_OTHERS, "Glitches": CH_GLITCHES}
     return [
         ("chan-x", dict(base, MaxSent=n, MaxWrite=n, MaxFaults=1), []),
         # two faults per behaviour: a second fault can undo the first (swap twice, duplicate then drop), so only
         # the clauses that hold whatever happened to the wire are checked: nothing but a prefix is ever delivered
-        ("chan-x2", dict(base, MaxSent=6 if t else 5, MaxWrite=6 if t else 5, MaxFaults=2),
+        ("chan-x2", dict(base, MaxSent=6 if t else 5, MaxWrite=6 if t else 5, MaxFaults=2, Glitches="{}"),
          [(CH_INV, "INVARIANTS TypeOK Prefix Complete Conservation Nonces")]),
     ]
 
@@ -53,23 +60,28 @@ def chan_replay(ctx):
     t = ctx.tier == "thorough"
     return [
         # three-unit frames: short / nearly full / full last frames, two frames per write, every fault kind,
-        # every short-read regime
+        # every short-read regime; in every state a Write on the reverse direction and on a second live pair
         ("chan_a", {"Tag": 2, "MaxPT": 3, "MaxSent": 6 if t else 5, "MaxWrite": 6 if t else 5, "Bufs": S(range(1, 7)),
-                    "Shorts": S([0, 1, 2]), "Faults": ALL_FAULTS, "MaxFaults": 1}),
+                    "Shorts": S([0, 1, 2]), "Faults": ALL_FAULTS, "MaxFaults": 1, "Others": ALL_OTHERS, "Glitches": "{}"}),
         # two-unit frames: payloads of more than three frames (3 * MaxPT + 1 in one write), zero-length reads
         ("chan_b", {"Tag": 2, "MaxPT": 2, "MaxSent": 7, "MaxWrite": 7, "Bufs": S([0, 1, 2, 4, 5]),
-                    "Shorts": S([0, 2]) if t else S([0]), "Faults": '{"flip", "drop", "dup", "swap"}', "MaxFaults": 1}),
+                    "Shorts": S([0, 2]) if t else S([0]), "Faults": '{"flip", "drop", "dup", "swap"}', "MaxFaults": 1,
+                    "Others": "{}", "Glitches": "{}"}),
+        # glitches of the underlying connection (bytes + timeout, temporary error, short write) in every state
+        ("chan_g", {"Tag": 2, "MaxPT": 3, "MaxSent": 5 if t else 4, "MaxWrite": 5 if t else 4, "Bufs": S(range(1, 7)),
+                    "Shorts": S([0, 1, 2]) if t else S([0, 2]), "Faults": "{}", "MaxFaults": 0, "Others": "{}",
+                    "Glitches": CH_GLITCHES}),
     ]
 
 
 LAYERS = {
     # name: (MC module, cfg template, quick consts, thorough consts, deadlock checking)
     "psk": ("C02_MCPsk", "C02_MCPsk.cfg",
-            {"NonceLen": 2, "MaxSent": 6, "MaxWrite": 3, "Bufs": S([0, 1, 2, 3, 4]), "Shorts": S([0, 1, 2])},
-            {"NonceLen": 2, "MaxSent": 8, "MaxWrite": 4, "Bufs": S([0, 1, 2, 3, 4, 5]), "Shorts": S([0, 1, 2])}),
+            {"NonceLen": 2, "MaxSent": 6, "MaxWrite": 3, "Bufs": S([0, 1, 2, 3, 4]), "Shorts": S([0, 1, 2]), "Glitches": GLITCHES},
+            {"NonceLen": 2, "MaxSent": 8, "MaxWrite": 4, "Bufs": S([0, 1, 2, 3, 4, 5]), "Shorts": S([0, 1, 2]), "Glitches": GLITCHES}),
     "sampled": ("C02_MCSampled", "C02_MCSampled.cfg",
-                {"PeekSize": 3, "MaxSent": 6, "MaxWrite": 4, "Bufs": S([0, 1, 2, 3, 4]), "Shorts": S([0, 1, 2])},
-                {"PeekSize": 3, "MaxSent": 8, "MaxWrite": 5, "Bufs": S([0, 1, 2, 3, 4, 5]), "Shorts": S([0, 1, 2])}),
+                {"PeekSize": 3, "MaxSent": 6, "MaxWrite": 4, "Bufs": S([0, 1, 2, 3, 4]), "Shorts": S([0, 1, 2]), "Glitches": RGLITCHES},
+                {"PeekSize": 3, "MaxSent": 8, "MaxWrite": 5, "Bufs": S([0, 1, 2, 3, 4, 5]), "Shorts": S([0, 1, 2]), "Glitches": RGLITCHES}),
     "mux": ("C02_MCMux", "C02_MCMux.cfg",
             {"Streams": S([1, 2]), "MaxSent": 2, "MaxWrite": 2, "MaxMsg": 1, "MaxTotal": 2, "MaxClose": 2, "Bufs": S([1, 2])},
             {"Streams": S([1, 2]), "MaxSent": 2, "MaxWrite": 2, "MaxMsg": 1, "MaxTotal": 3, "MaxClose": 2, "Bufs": S([1, 2])}),
@@ -233,7 +245,7 @@ def _edge_stats(g):
                 inc("read-error")
             t = g.states[tk]
             s = g.states[sk]
-            if isinstance(t, list) and len(t) == 14:
+            if isinstance(t, list) and len(t) == 20:
                 if t[5] and t[6] == t[7]:
                     inc("quirk-queue-kept-empty")
                 if t[5] and 0 < t[7] < t[6]:
@@ -242,6 +254,16 @@ def _edge_stats(g):
                     inc("delivery-after-error")
         if n == "fault":
             inc("fault:" + op["kind"])
+        if n == "other":
+            s = g.states[sk]
+            if isinstance(s, list) and len(s) == 20:
+                inc("other:%s:%s" % (op["who"], "queue-partial" if s[5] and s[7] < s[6] else "queue-kept-empty" if s[5] else "no-queue"))
+        if n == "glitch":
+            inc("glitch:" + op["kind"])
+        if n == "read" and op.get("glitch", "none") != "none":
+            inc("read-glitch:" + op["glitch"])
+        if n == "write" and op.get("short"):
+            inc("write-short")
         if n == "write" and "frames" in op:
             inc("write-frames:%d" % min(len(op["frames"]), 4))
         if n in ("read", "creadend", "sread") and op.get("halfclosed") and op.get("n", 0) > 0:
@@ -259,11 +281,15 @@ def _edge_stats(g):
 
 CHAN_NEED = ["path:queued", "path:inplace", "path:pooled", "path:end", "rel:lt", "rel:eq", "rel:gt", "rel:lt_pt",
              "rel:eq_pt", "rel:mid", "rel:eq_len", "rel:gt_len", "read-error", "quirk-queue-kept-empty",
-             "queue-partial", "delivery-after-error", "write-frames:2", "op:short"] + \
+             "queue-partial", "delivery-after-error", "write-frames:2", "op:short", "write-short",
+             "read-glitch:dataerr", "read-glitch:temperr"] + \
+            ["other:%s:%s" % (w, q) for w in ("rev", "peer") for q in ("queue-partial", "queue-kept-empty", "no-queue")] + \
             ["fault:" + k for k in ("flip", "fliplen", "drop", "dup", "swap", "cut", "cuteof", "trunc")]
 LAYER_NEED = {
-    "psk": ["op:write", "op:read", "op:short", "psk-second-write"],
-    "sampled": ["op:peek", "op:send", "op:close", "peeked-short-buffer", "eof"],
+    "psk": ["op:write", "op:read", "op:short", "psk-second-write", "write-short", "read-glitch:dataerr",
+            "read-glitch:temperr", "glitch:eofdata", "eof"],
+    "sampled": ["op:peek", "op:send", "op:close", "peeked-short-buffer", "eof", "read-glitch:dataerr",
+                "read-glitch:temperr", "glitch:eofdata"],
     "mux": ["op:open", "op:write", "op:closewrite", "op:read", "read-after-own-closewrite", "eof"],
     "lazy": ["lazy-flush-by:cwrite", "lazy-flush-by:creadbegin", "lazy-flush-by:cclosewrite", "op:swrite", "op:sread",
              "read-after-own-closewrite", "eof"],
